@@ -7,7 +7,7 @@
    exception: IndexError, struct.error, AssertionError, ValueError, UnicodeError; exhausted
    fuel = non-termination); for parser computations Val | Exn (XLib e) | Exn (XInt e). *)
 From DV Require Import Base.Prelude Model.NameM Model.ParserM Model.UntrustedM.
-From DV Require Model.TokM Model.SchemaM Proofs.UntrustedSchema.
+From DV Require Model.TokM Model.SchemaM Proofs.UntrustedSchema Model.ZoneTextM Proofs.UntrustedZone.
 From DV Require Import Proofs.NameValid Proofs.ParserSafe Proofs.ParserProg
                        Proofs.UntrustedSafe Proofs.UntrustedDec Proofs.UntrustedText.
 Open Scope Z_scope.
@@ -298,6 +298,37 @@ Theorem zonefile_dispatch_prefix_refuted :
   line_kind_prefix (TokM.mkTok TokM.tQUOTED [] false None) true = Internal iIndexError.
 Proof. exact line_kind_prefix_refuted. Qed.
 Print Assumptions zonefile_dispatch_prefix_refuted.
+
+(* Whole zone files, on C09's model of the reader (Model/ZoneTextM.v: Reader.read, _rr_line,
+   _generate_line with its modifiers, $TTL/$ORIGIN/$UNICODE, txn.add incl. the CNAME rule,
+   check_origin; a fixed table of record types, others via the generic syntax).  EVERY character
+   string, every origin / relativize / class / check_origin setting: a zone, or SyntaxError (to
+   which Reader.read adds file:line), NameTooLong from an owner or $ORIGIN name, UnknownOrigin,
+   CNAMEAndOtherData, NoSOA, NoNS (eUnmodelled = input outside the modelled fragment), or the
+   documented zone-semantic ValueError ("add() has non-origin SOA") - never AssertionError,
+   IndexError, ..., never out of fuel. *)
+Theorem no_internal_zonefile : forall (c : ZoneTextM.cfg) (text : list Z),
+  match ZoneTextM.from_text c text with
+  | Ok _ => True
+  | Lib e => e = ZoneTextM.eSyntax \/ e = ZoneTextM.eNameTooLongZ \/ e = ZoneTextM.eUnknownOrigin
+             \/ e = ZoneTextM.eCNAMEAndOther \/ e = ZoneTextM.eNoSOA \/ e = ZoneTextM.eNoNS
+             \/ e = ZoneTextM.eUnmodelled
+  | Internal e => e = ZoneTextM.iValueError
+  end.
+Proof. exact UntrustedZone.zone_from_text_outcome. Qed.
+Print Assumptions no_internal_zonefile.
+
+(* dns.zonefile.read_rrsets (the same reader on the RRsets transaction) *)
+Theorem no_internal_read_rrsets : forall (c : ZoneTextM.cfg) (zo : name) (text : list Z),
+  match ZoneTextM.read_rrsets c zo text with
+  | Ok _ => True
+  | Lib e => e = ZoneTextM.eSyntax \/ e = ZoneTextM.eNameTooLongZ \/ e = ZoneTextM.eUnknownOrigin
+             \/ e = ZoneTextM.eCNAMEAndOther \/ e = ZoneTextM.eNoSOA \/ e = ZoneTextM.eNoNS
+             \/ e = ZoneTextM.eUnmodelled
+  | Internal e => e = ZoneTextM.iValueError
+  end.
+Proof. exact UntrustedZone.read_rrsets_outcome. Qed.
+Print Assumptions no_internal_read_rrsets.
 
 (* ================= non-vacuity ================= *)
 
